@@ -41,6 +41,13 @@ func (g *Gen) HistoryTwins() []E {
 		}
 	}
 	g.focus = []string{ffield, sfield, "x", "xy"}
+	// the generator aims its choices (criteria fields, update paths) at the first twin: let it
+	// believe that one has every index some twin has
+	for i := range twins {
+		for _, f := range sets[i%len(sets)] {
+			g.idx[twins[0]][f] = true
+		}
+	}
 	mirror := func(e E) {
 		for _, c := range twins {
 			m := E{}
@@ -85,6 +92,22 @@ func (g *Gen) HistoryTwins() []E {
 			mirror(g.eventFor(op, twins[0]))
 		}
 	}
+	// a systematic sweep through every index some twin has: ordered scans in both directions and
+	// range scans around a stored value
+	sweep := func() {
+		seen := map[string]bool{}
+		for _, set := range sets {
+			for _, f := range set {
+				if seen[f] {
+					continue
+				}
+				seen[f] = true
+				v := g.fieldValue(f)
+				mirror(E{"op": "FindAll", "c": twins[0], "q": []interface{}{[]interface{}{"sort", []interface{}{[]interface{}{B(f), []int{1, -1}[g.r.Intn(2)]}}}}})
+				mirror(E{"op": "Count", "c": twins[0], "q": []interface{}{[]interface{}{"where", []interface{}{"un", []string{"gte", "lte", "eq"}[g.r.Intn(3)], B(f), []interface{}{"lit", v}}}}})
+			}
+		}
+	}
 	mkIdx(0)
 	writes(6 + g.r.Intn(5))
 	mkIdx(1)
@@ -93,7 +116,8 @@ func (g *Gen) HistoryTwins() []E {
 	mkIdx(2)
 	reads(6 + g.r.Intn(4))
 	writes(3)
-	reads(4)
+	reads(3)
+	sweep()
 	return evs
 }
 
